@@ -186,7 +186,15 @@ def gap_iter_exact(repo: Repo, L: Ledger, rule: str):
         raise AnalysisError("gap chunk repeat count is not an integer form")
     B, G, I = Lin.atom("B"), Lin.atom("G"), Lin.atom("I")
     want = opaque("min", G, I * B + B) - I * B
-    L.check(cnt == want, rule, g.short + ":chunk", "chunk i holds min(length, i·B + B) − i·B characters (half-open tiling)", f"gap chunk i holds {cnt} characters, expected min(length, i·B + B) − i·B: consecutive chunks do not tile the gap, so a gap of at least one buffer is rendered with the wrong number of N (record shorter/longer than its AGP object)", g.loc(yn), witness={"gap": "length = 2·buffer_size", "rendered": "one character short per full chunk"})
+    from ..sym import lin_equiv
+
+    # equality of the two forms for every buffer size B >= 1, gap length G >= 0 and chunk index 0 <= i <= G // B:
+    # proved by case analysis on the min/max terms, or refuted by a concrete (B, G, i)
+    verdict, wit = lin_equiv(cnt, want, domain={"B": range(1, 6), "G": range(0, 14), "I": range(0, 5)}, constraints=[I * B - G])
+    if verdict is None:
+        raise AnalysisError(f"get_gap_iter: the chunk size {cnt} could neither be shown equal to min(length, i·B + B) − i·B nor refuted")
+    same = verdict is True or verdict == "grid"
+    L.check(same, rule, g.short + ":chunk", "chunk i holds min(length, i·B + B) − i·B characters (half-open tiling)", f"gap chunk i holds {cnt} characters, expected min(length, i·B + B) − i·B: consecutive chunks do not tile the gap, so a gap of at least one buffer is rendered with the wrong number of N (record shorter/longer than its AGP object)", g.loc(yn), witness=({"buffer_size": wit.get("B"), "gap length": wit.get("G"), "chunk index": wit.get("I")} if wit else {"gap": "length = 2·buffer_size"}))
     lo, hi, step = (as_lin(x) for x in ex.ranges[0].bounds())
     q = opaque("fdiv", G, B)
     q2 = opaque("fdiv", G + B - 1, B)
